@@ -119,40 +119,6 @@ example : redirectUrlOf {} [{ toks := [.slash, .var .path "p".toList, .slash], e
 
 /-! ### convergence -/
 
-/-- how `StateMachineMatcher.match` comes to raise `RequestPath` -/
-theorem matchSM_requestPath_inv {root : State} {mg rd : Bool} {q : Req} {dom path p' : Str}
-    (h : matchSM root mg rd q dom path = .requestPath p') :
-    ((dfs q root (segments dom path) []).res = .slash ∧ p' = path ++ ['/']) ∨
-    ((dfs q root (segments dom path) []).res = .none ∧ mg = true ∧
-      (((dfs q root (segments dom (mergeSlashes path)) []).res = .slash ∧ p' = mergeSlashes path ++ ['/']) ∨
-       (∃ r vs, (dfs q root (segments dom (mergeSlashes path)) []).res = .found r vs ∧ r.merge = true ∧ p' = mergeSlashes path))) := by
-  simp only [matchSM] at h
-  simp only [segments]
-  cases h1 : (dfs q root (dom :: splitOn '/' path) []).res with
-  | slash => simp only [h1] at h; cases h; exact .inl ⟨rfl, rfl⟩
-  | found r vs =>
-    simp only [h1, finishMatch] at h
-    split at h
-    · cases h
-    · split at h <;> cases h
-  | none =>
-    simp only [h1] at h
-    right
-    refine ⟨rfl, ?_⟩
-    cases mg with
-    | false => simp at h
-    | true =>
-      refine ⟨rfl, ?_⟩
-      simp only [if_true] at h
-      cases h2 : (dfs q root (dom :: splitOn '/' (mergeSlashes path)) []).res with
-      | slash => simp only [h2] at h; cases h; exact .inl ⟨rfl, rfl⟩
-      | none => simp [h2] at h
-      | found r vs =>
-        simp only [h2] at h
-        split at h
-        · rename_i hm; cases h; exact .inr ⟨r, vs, rfl, hm, rfl⟩
-        · cases h
-
 /-- **slash_redirect_converges_partial.** When the search asks for the slash redirect on a path, the
 redirect target (path + `/`) is admitted DIRECTLY, for the same request, by a strict branch rule of the
 map — the one that asked for the slash — so re-matching the target finds a rule or, at worst, another
